@@ -317,6 +317,22 @@ class CFG:
                         return n
         return None
 
+    def reachable_without_edges(self, dst: int, edges: Set[Tuple[int, object]], src: Optional[int] = None) -> bool:
+        """is dst reachable from src (default: entry) when the given (node, label) out-edges are removed?"""
+        seen, stack = set(), [self.entry if src is None else src]
+        while stack:
+            k = stack.pop()
+            if k in seen:
+                continue
+            if k == dst:
+                return True
+            seen.add(k)
+            for t, l in self.nodes[k].succs:
+                if (k, l) in edges:
+                    continue
+                stack.append(t)
+        return False
+
     def paths_exist_avoiding(self, src: int, dst: int, avoid: Set[int]) -> bool:
         """Is there a path src ->* dst that does not pass through any node in ``avoid``?"""
         seen, stack = set(), [src]
